@@ -379,6 +379,12 @@ ROWS = {
     "instance_of": (lambda: F.instance_of(int, str), lambda x: isinstance(x, (int, str)), [], [1, "a", None, 2.5, [1]]),
     "all": (lambda: F.all(lambda v: v > 0, ISEVEN), lambda x: all(f(x) for f in (lambda v: v > 0, ISEVEN)), [], [2, 3, -2, 0, "a"]),
     "any": (lambda: F.any(lambda v: v > 2, ISEVEN), lambda x: any(f(x) for f in (lambda v: v > 2, ISEVEN)), [], [2, 3, 1, 0, "a"]),
+    # predicates that are themselves pipelines (one predicate each: a composed function, not its steps)
+    "all_pipeline": (lambda v: F.all(F.add(v) + F.gt(0)), lambda x, v: all([(x + v) > 0]), [[-5, 0, 5]], [3, -3, 7, 0, "a"]),
+    "any_pipeline": (lambda v: F.any(F.add(v) + F.gt(0)), lambda x, v: any([(x + v) > 0]), [[-5, 0, 5]], [3, -3, 7, 0, "a"]),
+    "all_pipeline3": (lambda v: F.all(F.add(v) + F.negate + F.lt(0), ISEVEN), lambda x, v: all([-(x + v) < 0, ISEVEN(x)]), [[-5, 0, 5]], [4, -4, 6, 0]),
+    "all_single": (lambda: F.all(ISEVEN), lambda x: all([ISEVEN(x)]), [], [2, 3, "a"]),
+    "any_single": (lambda: F.any(ISEVEN), lambda x: any([ISEVEN(x)]), [], [2, 3, "a"]),
     "invert": (lambda: F.invert(ISEVEN), lambda x: not ISEVEN(x), [], [1, 2, "a"]),
     "invert_default": (lambda: F.invert(), lambda x: not x, [], [True, False, 0, "a", []]),
     "ensure": (lambda: F.ensure(ISEVEN), lambda x: _ensure(x), [], [1, 2, "a"]),
@@ -388,7 +394,7 @@ ROWS = {
     "partial": (lambda v: F.partial(ADD2, b=v), lambda x, v: ADD2(x, b=v), [NUMS + ["a"]], NUMS + ["b"]),
 }
 ALIASES = {"add_nc": "add", "subtract_nc": "subtract", "multiply_nc": "multiply", "left_multiply_nc": "left_multiply", "divide_by_nc": "divide_by",
-           "divide_into_nc": "divide_into", "modulo_nc": "modulo", "get_default": "get", "get_from_default": "get_from", "reduce_initial": "reduce", "reduce_initial_count": "reduce", "invert_default": "invert", "call_method_args": "call_method"}
+           "divide_into_nc": "divide_into", "modulo_nc": "modulo", "get_default": "get", "get_from_default": "get_from", "reduce_initial": "reduce", "reduce_initial_count": "reduce", "all_pipeline": "all", "any_pipeline": "any", "all_pipeline3": "all", "all_single": "all", "any_single": "any", "invert_default": "invert", "call_method_args": "call_method"}
 
 
 def _get(c, k, d):
